@@ -87,4 +87,45 @@ theorem exposedLimbCount_eq (w : Nat) (hw : 0 < w) (bounds : List Nat) (hne : bo
     exact (derived_bound_count w hw bounds hne (fun b hb => by simpa using h b hb) hlast).symm
   · rfl
 
+theorem boundValue_replicate_append (w : Nat) (rest : List Nat) : ∀ k,
+    boundValue w (List.replicate k w ++ rest) + 1 = 2 ^ (w * k) * (boundValue w rest + 1)
+  | 0 => by simp
+  | k + 1 => by
+    have ih := boundValue_replicate_append w rest k
+    have hp : 1 ≤ 2 ^ w := Nat.one_le_two_pow
+    simp only [List.replicate_succ, List.cons_append, boundValue]
+    have e : 2 ^ w - 1 + 2 ^ w * boundValue w (List.replicate k w ++ rest) + 1
+        = 2 ^ w * (boundValue w (List.replicate k w ++ rest) + 1) := by
+      rw [Nat.mul_add, Nat.mul_one]; omega
+    have hk : w + w * k = w * (k + 1) := by rw [Nat.mul_succ, Nat.add_comm]
+    rw [e, ih, ← Nat.mul_assoc, ← Nat.pow_add, hk]
+
+theorem ceilDiv_pred (nb w : Nat) (hw : 0 < w) (hnb : 1 ≤ nb) : ceilDiv nb w - 1 = (nb - 1) / w := by
+  unfold ceilDiv
+  have : nb + w - 1 = (nb - 1) + w := by omega
+  rw [this, Nat.add_div_right _ hw]
+  rfl
+
+/-- `assign_bounded(nb_bits)` gives limb bounds whose derived bound `nb_bits()` is `nb_bits`. -/
+theorem nbBitsOf_assignBounds (w nb : Nat) (hw : 0 < w) (hnb : 1 ≤ nb) :
+    nbBitsOf w (assignBounds w nb) = nb := by
+  unfold nbBitsOf assignBounds
+  simp only []
+  rw [Nat.max_eq_left hnb, ceilDiv_pred nb w hw hnb]
+  have h := boundValue_replicate_append w [(nb - 1) % w + 1] ((nb - 1) / w)
+  simp only [boundValue, Nat.mul_zero, Nat.add_zero] at h
+  have hp : 1 ≤ 2 ^ ((nb - 1) % w + 1) := Nat.one_le_two_pow
+  rw [Nat.sub_add_cancel hp, ← Nat.pow_add] at h
+  have hdm := Nat.div_add_mod (nb - 1) w
+  have he : w * ((nb - 1) / w) + ((nb - 1) % w + 1) = nb := by omega
+  rw [he] at h
+  have hlo : 2 ^ (nb - 1) ≤ boundValue w (List.replicate ((nb - 1) / w) w ++ [(nb - 1) % w + 1]) := by
+    have : 2 ^ nb = 2 * 2 ^ (nb - 1) := by
+      rw [← Nat.pow_succ']; congr 1; omega
+    have h1 : 1 ≤ 2 ^ (nb - 1) := Nat.one_le_two_pow
+    omega
+  have hhi : boundValue w (List.replicate ((nb - 1) / w) w ++ [(nb - 1) % w + 1]) < 2 ^ nb := by omega
+  have := bitLen_bounds _ (nb - 1) nb hlo hhi
+  omega
+
 end MidnightZK.C08
